@@ -89,13 +89,24 @@ template <typename T, typename E, int BITS> struct plain_k
         if (ectx.log) ev("Eval").i("rank", my_rank()).i("pos", pos).emit();
         return value_at<T>(pos, p.point()[0]);
     }
+    // with two distributions (a 1-d one with 3 bins, a 2-d one with 2 x 2 bins): the bins travel through the reduction too
+    static T eval_dist(hep::mc_point<T> const& p, hep::projector<T>& pr)
+    {
+        T v = eval(p);
+        T x = p.point()[0] - std::floor(p.point()[0] * T(4)) / T(4);   // exact: multiples of 2^-23 folded into [0, 1/4)
+        pr.add(0, x * T(4), v);
+        pr.add(1, x * T(4), p.point()[1] < T(0.5) ? T(0.25) : T(0.75), v + T(1));
+        return v;
+    }
     template <typename CB> static chk serial(chk const& c, std::vector<std::size_t> const& plan, CB cb)
     {
-        return hep::plain(hep::make_integrand<T>([](hep::mc_point<T> const& p) { return eval(p); }, d()), plan, c, cb);
+        return hep::plain(hep::make_integrand<T>([](hep::mc_point<T> const& p, hep::projector<T>& pr) { return eval_dist(p, pr); }, d(),
+            hep::make_dist_params<T>(3, T(), T(1), "one"), hep::distribution_parameters<T>(2, 2, T(), T(1), T(), T(1), "two")), plan, c, cb);
     }
     template <typename CB> static chk parallel(MPI_Comm comm, chk const& c, std::vector<std::size_t> const& plan, CB cb)
     {
-        return hep::mpi_plain(comm, hep::make_integrand<T>([](hep::mc_point<T> const& p) { return eval(p); }, d()), plan, c, cb);
+        return hep::mpi_plain(comm, hep::make_integrand<T>([](hep::mc_point<T> const& p, hep::projector<T>& pr) { return eval_dist(p, pr); }, d(),
+            hep::make_dist_params<T>(3, T(), T(1), "one"), hep::distribution_parameters<T>(2, 2, T(), T(1), T(), T(1), "two")), plan, c, cb);
     }
 };
 template <typename T, typename E, int BITS> struct vegas_k
@@ -171,8 +182,14 @@ template <typename T, typename E, int BITS> struct mc_k
 
 template <typename T, typename R> static std::string result_text(R const& r)
 {
-    return hexfloat(r.sum()) + " " + hexfloat(r.sum_of_squares()) + " " + std::to_string(r.calls()) + " " + std::to_string(r.non_zero_calls()) + " " +
+    std::string s = hexfloat(r.sum()) + " " + hexfloat(r.sum_of_squares()) + " " + std::to_string(r.calls()) + " " + std::to_string(r.non_zero_calls()) + " " +
         std::to_string(r.finite_calls());
+    // every bin of every distribution: estimate, counters and the full number of calls
+    for (auto const& d : r.distributions())
+        for (auto const& b : d.results())
+            s += " | " + hexfloat(b.sum()) + " " + hexfloat(b.sum_of_squares()) + " " + std::to_string(b.calls()) + " " + std::to_string(b.non_zero_calls()) + " " +
+                std::to_string(b.finite_calls());
+    return s;
 }
 
 // position of a generator as an integer if it has one, else an interned id of its text
